@@ -66,7 +66,6 @@ type RateLimiter<T> = governor::RateLimiter<
     governor::clock::DefaultClock,
 >;
 
-#[derive(Debug, Eq, PartialEq)]
 #[cfg(feature = "verif-hooks")]
 pub(crate) fn verif_compact_block_verify(block: &packed::CompactBlock) -> Status {
     compact_block_verifier::CompactBlockVerifier::verify(block)
@@ -90,6 +89,7 @@ pub(crate) fn verif_block_uncles_verify(
     block_uncles_verifier::BlockUnclesVerifier::verify(block, indexes, uncles)
 }
 
+#[derive(Debug, Eq, PartialEq)]
 pub enum ReconstructionResult {
     Block(BlockView),
     Missing(Vec<usize>, Vec<usize>),
